@@ -258,6 +258,27 @@ func (cg *coreGen) mapExpr(d int) string {
 		}
 		el = append(el, fmt.Sprintf("%q: %s", k, v))
 	}
+	if cg.MapHeavy && g.Chance(1, 3) {
+		// wrapped over several lines with ragged indentation: the position of
+		// a key on its line says nothing about its place in the literal
+		var b strings.Builder
+		b.WriteString("{")
+		for i, e := range el {
+			if i > 0 {
+				b.WriteString(",")
+				if g.Bool() {
+					b.WriteString("\n" + strings.Repeat(" ", g.Intn(3)))
+				} else {
+					b.WriteString(" ")
+				}
+			} else if g.Chance(1, 3) {
+				b.WriteString("\n" + strings.Repeat(" ", 2+g.Intn(12)))
+			}
+			b.WriteString(e)
+		}
+		b.WriteString("}")
+		return b.String()
+	}
 	return "{" + strings.Join(el, ", ") + "}"
 }
 
@@ -265,8 +286,32 @@ func (cg *coreGen) setExpr(d int) string {
 	g := cg.g
 	n := 1 + g.Intn(5)
 	var el []string
+	kind := 0
+	if cg.MapHeavy {
+		kind = g.Intn(4) // 0,1: ints  2: floats  3: strings
+	}
 	for i := 0; i < n; i++ {
-		el = append(el, cg.intExpr(d-1))
+		switch kind {
+		case 2:
+			el = append(el, fmt.Sprintf("%d.%d", g.Intn(20), 1+g.Intn(8)))
+		case 3:
+			el = append(el, fmt.Sprintf("%q", []string{"a", "bb", "cc", "d", "eee", "ff", "g"}[g.Intn(7)]))
+		default:
+			el = append(el, cg.intExpr(d-1))
+		}
+	}
+	return "{" + strings.Join(el, ", ") + "}"
+}
+
+// stringSet is a set literal of short strings with repeated lengths and first
+// letters (ties for comparison functions that are not total orders).
+func (cg *coreGen) stringSet() string {
+	g := cg.g
+	words := []string{"ab", "ba", "ca", "abc", "bcd", "a", "b", "cab", "bb", "aa"}
+	n := 2 + g.Intn(5)
+	var el []string
+	for i := 0; i < n; i++ {
+		el = append(el, fmt.Sprintf("%q", words[g.Intn(len(words))]))
 	}
 	return "{" + strings.Join(el, ", ") + "}"
 }
@@ -456,6 +501,25 @@ func (cg *coreGen) TopStmt() Stmt {
 		}
 		return Stmt{Src: fmt.Sprintf("switch %s %% 4 { %s\n default: %s }", cg.intExpr(2), strings.Join(cases, "\n "), cg.innerStmts(1))}
 	case 14:
+		if vs := cg.varsOf(tInt, true); len(vs) > 0 && g.Bool() {
+			// a function whose NESTED functions read and write a global
+			v := vs[g.Intn(len(vs))]
+			name := cg.fresh("f")
+			k := g.Intn(9)
+			var src string
+			switch g.Intn(3) {
+			case 0:
+				src = fmt.Sprintf("func %s() { inner := func() { return %s + %d }; return inner() }", name, v.Name, k)
+			case 1:
+				src = fmt.Sprintf("func %s() { w := func() { %s = %s + 1 }; w(); rd := func() { return %s }; return rd() }", name, v.Name, v.Name, v.Name)
+			default:
+				src = fmt.Sprintf("func %s() { func deep() { return func() { return %s * 2 } }; return deep()() + %d }", name, v.Name, k)
+			}
+			cg.funcs = append(cg.funcs, &gFunc{Name: name})
+			cg.marks++
+			src += fmt.Sprintf("\nmark(%d, %s())", cg.marks, name)
+			return Stmt{Src: src, Defines: []string{name}}
+		}
 		// closure counter
 		mk := cg.fresh("mk")
 		c := cg.fresh("cl")
@@ -486,7 +550,21 @@ func (cg *coreGen) TopStmt() Stmt {
 		return Stmt{Src: fmt.Sprintf("emits(string(%s)); emits('{%s}')", cg.setExpr(1), cg.templateContainer())}
 	default:
 		cg.marks++
-		return Stmt{Src: fmt.Sprintf("for x in %s { emit(%d, x) }", cg.setExpr(1), cg.marks)}
+		if cg.MapHeavy {
+			switch g.Intn(6) {
+			case 0:
+				return Stmt{Src: fmt.Sprintf("emits(string(sorted(%s, func(a, b) { return len(a) < len(b) })))", cg.stringSet())}
+			case 1:
+				return Stmt{Src: fmt.Sprintf("emits(string(sorted(%s, func(a, b) { return a[0] < b[0] })))", cg.stringSet())}
+			case 2:
+				return Stmt{Src: fmt.Sprintf("emits(string(sorted(%s, func(a, b) { return len(a) < len(b) })))", cg.mapExpr(1))}
+			case 3:
+				return Stmt{Src: fmt.Sprintf("emits(string(try(func() { return sorted({%d, \"s\", %d.5, [1]}) }, func(e) { return string(e) })))", g.Intn(9), g.Intn(9))}
+			case 4:
+				return Stmt{Src: fmt.Sprintf("emits(string(list(%s)))", cg.setExpr(1))}
+			}
+		}
+		return Stmt{Src: fmt.Sprintf("for x in %s { emits(string(x)) }", cg.setExpr(1))}
 	}
 }
 
